@@ -119,9 +119,14 @@ package metadata
 //@   ensures [unpublishedOperations] ok ==> has(mm, "unpublishedOperations") == (t.includeUnpublishedOperations && len(rm.UnpublishedOperations) > 0)
 //@   ensures [only] ok ==> (forall k string :: has(ret, k) ==> k == "method" || k == "deactivated" || k == "canonicalId" || k == "equivalentId" || k == "created" || k == "versionId" || k == "updated")
 
-// the constructor applies caller-supplied option closures (function values stored in a slice are not
-// followed by the verifier); the options of this package only set the two boolean fields
+// calling an option: it may only write the Metadata struct it is given (the two options of this
+// package, verified below as function literals' owners, set one boolean field each)
+//@ func (o Option) call(opts)
+//@   modifies deref(opts)
+
+// the constructor applies caller-supplied option closures to a struct of its own
 //@ func New(opts) (md)
-//@   trusted "constructor applying option closures; sets only the include* flags"
+// a nil option is a programming error of the caller (calling it panics), not an input
+//@   requires forall i int :: 0 <= i && i < len(opts) ==> opts[i] != nil
 //@   modifies nothing
 //@   ensures md != nil && fresh(md)
